@@ -27,6 +27,10 @@ HARNESSES = [
       {'defines': ['TLEN=1'], 'bound': 'every byte string of length 0..1', 'timeout': 250, 'jobs': 8}, {'defines': ['TLEN=3'], 'bound': 'every byte string of length 0..3', 'timeout': 3000, 'jobs': 16}, jobs=16),
     H('h_textdec', 'MODE_TEXTDEC', ['DecodeBase58 accepts exactly the well-formed texts (alphabet only, optional surrounding white space) among ALL strings over 256 character values, and decode-then-encode returns the text'],
       {'defines': ['TLEN=2'], 'bound': 'every string of length 0..2 over all 256 byte values', 'timeout': 250, 'jobs': 16}, {'defines': ['TLEN=3'], 'bound': 'every string of length 0..3', 'timeout': 3000, 'jobs': 16}, covers=(1, 2), jobs=16),
+    H('h_divmul', 'MODE_DIVMUL', ['/= and *=(ArithUint256) == independent restoring division / schoolbook product (mod 2^256) on a grid: divisors and multipliers of every bit length 1..256 in three shapes, three dividend patterns (case split: these kernels branch on every quotient bit)'],
+      {'bound': '256 bit lengths x 3 shapes x 3 dividend patterns (2304 operand pairs), concrete per path', 'timeout': 280, 'jobs': 16}, {'bound': 'as quick', 'timeout': 900, 'jobs': 16}, covers=(1, 2), jobs=16),
+    H('h_textdec59', 'MODE_TEXTDEC59', ['DecodeBase59 over ALL strings of 256 character values: no access outside its tables, accepts exactly the alphabet-only texts, and re-encoding the decoded bytes returns the text'],
+      {'defines': ['TLEN=2'], 'bound': 'every string of length 0..2 over all 256 byte values', 'timeout': 250, 'jobs': 16}, {'defines': ['TLEN=3'], 'bound': 'every string of length 0..3', 'timeout': 3000, 'jobs': 16}, covers=(1, 2), jobs=16),
 ]
 EXPLANATION = 'Bit-level kernels run on fully symbolic operands; z3 decides equivalence with an independent byte-array reference on every path.'
-ASSUMPTIONS = ['*=(ArithUint256) and /= (equivalence of two multipliers/dividers) and the address text form (SHA-256 checksum) are outside this check', 'rejecting malformed texts is covered only through the decoders explored in C06/C11']
+ASSUMPTIONS = ['*=(ArithUint256) and /= are decided on a grid only (h_divmul: every divisor bit length, three shapes, three dividends), not for all operand values; the address text form (SHA-256 checksum) is outside this check', 'rejecting malformed texts is covered only through the decoders explored in C06/C11']
